@@ -169,12 +169,9 @@ func (s *MultilineReverseSuffixSearcher) Find(haystack []byte) *Match {
 		// Find the start of the line containing this suffix
 		lineStart := findLineStart(haystack, suffixPos)
 
-		// Fast path: simple prefix verification (just byte comparison)
-		if len(s.prefixBytes) > 0 {
-			if s.verifyPrefix(haystack, lineStart) {
-				// Match found! No DFA needed.
-				return NewMatch(lineStart, suffixPos+s.suffixLen, haystack)
-			}
+		// Fast rejection: every match on this line starts at lineStart with the
+		// prefix literal (just byte comparison)
+		if len(s.prefixBytes) > 0 && !s.verifyPrefix(haystack, lineStart) {
 			// Prefix doesn't match at this line start.
 			// Optimization: skip to next line - all other candidates on this line
 			// will have the same lineStart and will also fail.
@@ -184,7 +181,8 @@ func (s *MultilineReverseSuffixSearcher) Find(haystack []byte) *Match {
 			}
 			pos = suffixPos + nextLine + 1
 		} else {
-			// Slow path: use DFA for complex pattern verification
+			// The prefix and one suffix candidate do not make a match (the middle,
+			// overlap and the greedy end are still open): verify with the DFA
 			fwdCache := s.fwdCachePool.Get().(*lazy.DFACache)
 			end := s.forwardDFA.SearchAtAnchored(fwdCache, haystack, lineStart)
 			s.fwdCachePool.Put(fwdCache)
@@ -228,11 +226,8 @@ func (s *MultilineReverseSuffixSearcher) FindAt(haystack []byte, at int) *Match 
 			lineStart = at
 		}
 
-		// Fast path: simple prefix verification
-		if len(s.prefixBytes) > 0 {
-			if s.verifyPrefix(haystack, lineStart) {
-				return NewMatch(lineStart, suffixPos+s.suffixLen, haystack)
-			}
+		// Fast rejection: prefix literal at the line start
+		if len(s.prefixBytes) > 0 && !s.verifyPrefix(haystack, lineStart) {
 			// Prefix doesn't match - skip to next line
 			nextLine := bytes.IndexByte(haystack[suffixPos:], '\n')
 			if nextLine == -1 {
@@ -240,7 +235,7 @@ func (s *MultilineReverseSuffixSearcher) FindAt(haystack []byte, at int) *Match 
 			}
 			pos = suffixPos + nextLine + 1
 		} else {
-			// Slow path: use DFA
+			// Verify with the DFA
 			fwdCache := s.fwdCachePool.Get().(*lazy.DFACache)
 			end := s.forwardDFA.SearchAtAnchored(fwdCache, haystack, lineStart)
 			s.fwdCachePool.Put(fwdCache)
@@ -294,11 +289,8 @@ func (s *MultilineReverseSuffixSearcher) findIndicesAtImpl(haystack []byte, at i
 			lineStart = at
 		}
 
-		// Fast path: simple prefix verification
-		if len(s.prefixBytes) > 0 {
-			if s.verifyPrefix(haystack, lineStart) {
-				return lineStart, suffixPos + s.suffixLen, true
-			}
+		// Fast rejection: prefix literal at the line start
+		if len(s.prefixBytes) > 0 && !s.verifyPrefix(haystack, lineStart) {
 			// Prefix doesn't match - skip to next line
 			nextLine := bytes.IndexByte(haystack[suffixPos:], '\n')
 			if nextLine == -1 {
@@ -306,7 +298,7 @@ func (s *MultilineReverseSuffixSearcher) findIndicesAtImpl(haystack []byte, at i
 			}
 			pos = suffixPos + nextLine + 1
 		} else {
-			// Slow path: use DFA
+			// Verify with the DFA
 			endPos := s.forwardDFA.SearchAtAnchored(fwdCache, haystack, lineStart)
 			if endPos >= 0 {
 				return lineStart, endPos, true
@@ -349,11 +341,8 @@ func (s *MultilineReverseSuffixSearcher) IsMatch(haystack []byte) bool {
 		// Find line start
 		lineStart := findLineStart(haystack, suffixPos)
 
-		// Fast path: simple prefix verification
-		if len(s.prefixBytes) > 0 {
-			if s.verifyPrefix(haystack, lineStart) {
-				return true
-			}
+		// Fast rejection: prefix literal at the line start
+		if len(s.prefixBytes) > 0 && !s.verifyPrefix(haystack, lineStart) {
 			// Prefix doesn't match - skip to next line
 			nextLine := bytes.IndexByte(haystack[suffixPos:], '\n')
 			if nextLine == -1 {
@@ -361,7 +350,7 @@ func (s *MultilineReverseSuffixSearcher) IsMatch(haystack []byte) bool {
 			}
 			pos = suffixPos + nextLine + 1
 		} else {
-			// Slow path: use DFA
+			// Verify with the DFA
 			fwdCache := s.fwdCachePool.Get().(*lazy.DFACache)
 			matched := s.forwardDFA.SearchAtAnchored(fwdCache, haystack, lineStart) >= 0
 			s.fwdCachePool.Put(fwdCache)
